@@ -312,7 +312,7 @@ def ev_mcall(e, env, ctx):
         return sub_size(ctx, "qbase/src/net.rs", "SocketAddr", "max_encoding_size", r)
     if name == "len" and not args and r.kind in ("bytes", "ranges"):
         return V("nat", f"{r.term}.length")
-    if name == "len" and not args and r.kind == "data":
+    if name in ("len", "remaining") and not args and r.kind == "data":
         return V("nat", f"{r.term}.length")
     if name == "into_u64" and r.kind in ("varint", "sid"):
         return V("nat", r.term)
@@ -358,6 +358,8 @@ def ev_call(e, env, ctx):
     if f[0] != "path":
         raise Outside("call of a non-path")
     p = "::".join(f[1])
+    if p == "VarInt::default" and not args:
+        return V("varint", "0")
     if p == "VarInt::from_u32" and len(args) == 1:
         return V("varint", num(ev(args[0], env, ctx)))
     if p in ("VarInt::try_from", "VarInt::from_u64") and len(args) == 1:
@@ -527,7 +529,8 @@ def make_frame(ctx, fields):
     for f, _, kind, var in sp["fields"]:
         v = fields[f]
         ok = {"varint": ("varint",), "sid": ("sid", "varint"), "bytes": ("bytes",), "cid": ("cid",), "addr": ("addr",),
-              "nattype": ("nattype",), "ekind": ("ekind",), "efty": ("efty",), "token": ("bytes",)}[kind]
+              "nattype": ("nattype",), "ekind": ("ekind",), "efty": ("efty",), "token": ("bytes",),
+              "lenbit": ("lenbit", "bool"), "nat": ("nat", "varint"), "ranges": ("ranges",), "optecn": ("optecn",)}[kind]
         if v.kind not in ok:
             raise Outside(f"field `{f}` built from a {v.kind}")
         sub[var] = v.term
@@ -565,6 +568,11 @@ def pval(e, env, ctx):
         return make_frame(ctx, {f: pval(x, env, ctx) for f, x in e[2]})
     if e[0] == "block" and not e[1] and e[2] is not None:
         return pval(e[2], env, ctx)
+    if e[0] == "struct" and e[1] == ["EcnCounts"]:
+        fs = {f: ev(x, env, ctx) for f, x in e[2]}
+        if sorted(fs) != ["ce", "ect0", "ect1"] or any(v.kind != "varint" for v in fs.values()):
+            raise Outside("EcnCounts literal")
+        return V("ecn3", f"({fs['ect0'].term}, {fs['ect1'].term}, {fs['ce'].term})")
     if e[0] == "call" and e[1][0] == "path" and len(e[1][1]) == 2 and "enum" in ctx.spec and e[1][1][0] == ctx.spec["enum"] and e[1][1][1] in ctx.spec["variants"] and "only" not in ctx.spec:
         return V("enumval", None, variant=e[1][1][1], val=ev(e[2][0], env, ctx))
     if e[0] == "match" and e[1][0] == "path" and e[1][1] == ["dir"] and "enum" in ctx.spec:
@@ -602,6 +610,13 @@ def comb(e, env, ctx, fn_text):
                 x, r = ctx.fresh("v"), ctx.fresh("r")
                 return f"({lp} {inp}).bind fun {x} {r} =>\n    {cont(V(kind, x), r)}"
             return k
+        if p == "be_ecn_counts":
+            src = src_of(ctx.g, FR + "ack.rs")
+            body, _ = find_body(src, r"fn be_ecn_counts\(input: &\[u8\]\) -> nom::IResult<&\[u8\], EcnCounts> \{", "be_ecn_counts")
+            b = parse_block(body)
+            if b[1] or b[2] is None or b[2][0] != "mcall" or b[2][2] != "parse" or b[2][3] != [("path", ["input"])]:
+                raise Outside("be_ecn_counts is not `<parser>.parse(input)`")
+            return comb(b[2][1], env, ctx, body)
         raise Outside(f"parser `{p}`")
     if e[0] == "tuple" or (e[0] == "call" and e[1] == ("path", ["pair"])):
         parts = [comb(x, env, ctx, fn_text) for x in (e[1] if e[0] == "tuple" else e[2])]
@@ -694,13 +709,118 @@ def parse_app(e, env, ctx, fn_text, cur):
     raise Outside("parser application outside the fragment")
 
 
-def dec_seq(stmts, tail, env, ctx, fn_text, cur):
+def res_block(block, env, ctx, fn_text, cur, kinds):
+    """a block that evaluates to `(remainder, value)` (possibly failing with `?`) -> Lean `Res _` term"""
+    def tailfn(e, env, ctx, fn_text, cur):
+        if e is not None and e[0] == "try":
+            app = parse_app(e[1], env, ctx, fn_text, cur)
+
+            def cont(v, r):
+                kinds.append(v.kind)
+                return f".ok {par(v.term)} {r}"
+            return app(cur["lean"], cont)
+        if e is not None and e[0] == "tuple" and len(e[1]) == 2:
+            if e[1][0] != ("path", [cur["rust"]]):
+                raise Outside(f"block yields remainder `{e[1][0]}` but the current remainder is `{cur['rust']}`")
+            v = ev(e[1][1], env, ctx)
+            kinds.append(v.kind)
+            return f".ok {par(num(v))} {cur['lean']}"
+        raise Outside("block value outside the fragment (expected `P(rest)?` or `(rest, value)`)")
+    return dec_seq(block[1], block[2], env, ctx, fn_text, cur, tailfn)
+
+
+def dec_seq(stmts, tail, env, ctx, fn_text, cur, tailfn=None):
     """let-sequence parser body -> Lean term of type `Res Frame`"""
+    env = dict(env)
+    env[cur["rust"]] = V("data", cur["lean"])
     if not stmts:
-        return dec_tail(tail, env, ctx, fn_text, cur)
+        return (tailfn or dec_tail)(tail, env, ctx, fn_text, cur)
     s, rest = stmts[0], stmts[1:]
     if s[0] == "use":
-        return dec_seq(rest, tail, env, ctx, fn_text, cur)
+        return dec_seq(rest, tail, env, ctx, fn_text, cur, tailfn)
+    # counted repetition:  let mut xs = Vec::new(); let mut c = N; while c > 0 { let (i, x) = P(rem)?; xs.push(x); c -= 1; rem = i; }
+    if (len(stmts) >= 3 and s[0] == "let" and s[1][0] == "pbind" and s[2] == ("call", ("path", ["Vec", "new"]), [])
+            and stmts[1][0] == "let" and stmts[1][1][0] == "pbind" and stmts[2][0] == "while"):
+        xs, cnt, w = s[1][1], stmts[1][1][1], stmts[2]
+        n = num(ev(stmts[1][2], env, ctx))
+        body = w[2]
+        rem = cur["rust"]
+        ok = (w[1] == ("bin", ">", ("path", [cnt]), ("int", 0)) and body[2] is None and len(body[1]) == 4
+              and body[1][0][0] == "let" and body[1][0][1][0] == "ptuple" and len(body[1][0][1][1]) == 2 and body[1][0][1][1][0][0] == "pbind"
+              and body[1][0][2][0] == "try"
+              and body[1][1][0] == "expr" and body[1][1][1][0] == "mcall" and body[1][1][1][1] == ("path", [xs]) and body[1][1][1][2] == "push" and len(body[1][1][1][3]) == 1
+              and body[1][2] == ("assign", ("path", [cnt]), "-=", ("int", 1))
+              and body[1][3] == ("assign", ("path", [rem]), "=", ("path", [body[1][0][1][1][0][1]])))
+        if not ok:
+            raise Outside("`while` loop outside the counted-repetition idiom")
+        app = parse_app(body[1][0][2][1], env, ctx, fn_text, {"rust": rem, "lean": "bs"})
+        loop = f"dec_{ctx.spec['name']}_loop"
+
+        def cont(v, r):
+            env2 = dict(env)
+            bind_pat(body[1][0][1][1][1], v, env2)
+            item = body[1][1][1][3][0]
+            if item[0] != "tuple" or len(item[1]) != 2:
+                raise Outside("pushed element is not a pair")
+            a, b = (num(ev(x, env2, ctx)) for x in item[1])
+            return f"({loop} n {r}).bind fun rest r =>\n    .ok (({a}, {b}) :: rest) r"
+        ctx.aux += [f"/-- the counted `while` loop of `{ctx.spec['parser']}` -/", f"def {loop} : Nat → P (List (Nat × Nat))",
+                    "  | 0 => fun bs => .ok [] bs", "  | n + 1 => fun bs =>", "    " + app("bs", cont), ""]
+        x, r = ctx.fresh("v"), ctx.fresh("r")
+        env2 = dict(env)
+        env2[xs] = V("ranges", x)
+        k = dec_seq(stmts[3:], tail, env2, ctx, fn_text, {"rust": rem, "lean": r}, tailfn)
+        return f"({loop} {par(n)} {cur['lean']}).bind fun {x} {r} =>\n    {k}"
+    # optional trailing part:  let x = if c { let (i, y) = P(rem)?; rem = i; Some(y) } else { None };
+    if (s[0] == "let" and s[1][0] == "pbind" and s[2][0] == "if" and s[2][3] is not None and s[2][3] == ("block", [], ("path", ["None"]))):
+        c = ev(s[2][1], env, ctx)
+        th = s[2][2]
+        rem = cur["rust"]
+        ok = (c.kind in ("bool", "lenbit") and len(th[1]) == 2 and th[1][0][0] == "let" and th[1][0][1][0] == "ptuple" and len(th[1][0][1][1]) == 2
+              and th[1][0][1][1][0][0] == "pbind" and th[1][0][1][1][1][0] == "pbind" and th[1][0][2][0] == "try"
+              and th[1][1] == ("assign", ("path", [rem]), "=", ("path", [th[1][0][1][1][0][1]]))
+              and th[2] == ("call", ("path", ["Some"]), [("path", [th[1][0][1][1][1][1]])]))
+        if not ok:
+            raise Outside("optional trailing parser outside the `if c { let (i, y) = P(rem)?; rem = i; Some(y) } else { None }` idiom")
+        app = parse_app(th[1][0][2][1], env, ctx, fn_text, cur)
+
+        def cont(v, r):
+            if v.kind != "ecn3":
+                raise Outside("optional part is not an EcnCounts")
+            env2 = dict(env)
+            env2[s[1][1]] = V("optecn", f"some {par(v.term)}")
+            return dec_seq(rest, tail, env2, ctx, fn_text, {"rust": rem, "lean": r}, tailfn)
+        env3 = dict(env)
+        env3[s[1][1]] = V("optecn", "none")
+        return f"if {c.term} then\n    {app(cur['lean'], cont)}\n    else {dec_seq(rest, tail, env3, ctx, fn_text, cur, tailfn)}"
+    if s[0] == "let" and s[1][0] == "ptuple" and len(s[1][1]) == 2 and s[1][1][0][0] == "pbind" and s[2][0] == "if" and s[2][3] is not None:
+        pat, e = s[1], s[2]
+        c = ev(e[1], env, ctx)
+        if c.kind not in ("bool", "lenbit"):
+            raise Outside("condition of a parser `if`")
+        kinds = []
+        a = res_block(e[2], env, ctx, fn_text, cur, kinds)
+        b = res_block(e[3], env, ctx, fn_text, cur, kinds)
+        if not set(kinds) <= {"varint", "nat"}:
+            raise Outside(f"branches of a parser `if` yield {kinds}")
+        x, r = ctx.fresh("v"), ctx.fresh("r")
+        env2 = dict(env)
+        bind_pat(pat[1][1], V("nat" if "nat" in kinds else "varint", x), env2)
+        k = dec_seq(rest, tail, env2, ctx, fn_text, {"rust": pat[1][0][1], "lean": r}, tailfn)
+        return f"(if {c.term} then {par(a)} else {par(b)}).bind fun {x} {r} =>\n    {k}"
+    if s[0] == "let" and s[1][0] == "pbind" and s[2][0] == "match" and s[2][1][0] == "call" and s[2][1][1] == ("path", ["FrameType", "try_from"]):
+        arg_e = s[2][1][2][0]
+        arg = ev(arg_e, env, ctx)
+        arms = s[2][2]
+        ok = (len(arms) == 2 and arms[0][0] == ("pctor", ["Ok"], [("pbind", arms[0][0][2][0][1])] if arms[0][0][0] == "pctor" and arms[0][0][2] else None)
+              and arms[0][1] == ("call", ("path", ["ErrorFrameType", "V1"]), [("path", [arms[0][0][2][0][1]])])
+              and arms[1][0] == ("pctor", ["Err"], [("pwild",)])
+              and arms[1][1] == ("call", ("path", ["ErrorFrameType", "Ext"]), [arg_e]))
+        if not ok or arg.kind != "varint":
+            raise Outside("`match FrameType::try_from(..)` outside the fragment")
+        env2 = dict(env)
+        env2[s[1][1]] = V("efty", f"(match frameTypeOfNat {arg.term} with | some t => ErrFty.v1 t | none => ErrFty.ext {arg.term})")
+        return dec_seq(rest, tail, env2, ctx, fn_text, cur, tailfn)
     if s[0] == "let":
         pat, e = s[1], s[2]
         if e[0] == "try":
@@ -712,24 +832,29 @@ def dec_seq(stmts, tail, env, ctx, fn_text, cur):
                 env2 = dict(env)
                 if ty == "NatType" and arg.kind == "varint":
                     env2[pat[1]] = V("nattype", f"{arg.term} % 256")
-                    k = dec_seq(rest, tail, env2, ctx, fn_text, cur)
+                    k = dec_seq(rest, tail, env2, ctx, fn_text, cur, tailfn)
                     return f"if natTypeOk {arg.term} then {k} else {me[1]}"
                 if ty == "ErrorKind" and arg.kind == "varint":
                     kv = ctx.fresh("k")
                     env2[pat[1]] = V("ekind", kv)
-                    k = dec_seq(rest, tail, env2, ctx, fn_text, cur)
+                    k = dec_seq(rest, tail, env2, ctx, fn_text, cur, tailfn)
                     return f"match errKindOfNat {arg.term} with\n    | none => {me[1]}\n    | some {kv} =>\n    {k}"
                 raise Outside(f"{ty}::try_from(..).map_err(..)? outside the fragment")
             if pat[0] == "ptuple" and len(pat[1]) == 2 and pat[1][0][0] == "pbind":
-                if me:      # P(input).map_err(..)?
-                    app = parse_app(me[0], env, ctx, fn_text, cur)
-                    raise Outside("parser with map_err (error remapping) is outside the fragment")
+                if me:      # P(input).map_err(|_| E)?  : every nom error (Incomplete too) becomes E
+                    if me[0] != ("call", ("path", ["be_varint"]), [("path", [cur["rust"]])]):
+                        raise Outside("map_err on a parser other than `be_varint(<current remainder>)`")
+                    x, r = ctx.fresh("v"), ctx.fresh("r")
+                    env2 = dict(env)
+                    bind_pat(pat[1][1], V("varint", x), env2)
+                    k = dec_seq(rest, tail, env2, ctx, fn_text, {"rust": pat[1][0][1], "lean": r}, tailfn)
+                    return f"(match pVarint {cur['lean']} with | .err _ => Res.err {me[1][5:]} | x => x).bind fun {x} {r} =>\n    {k}"
                 app = parse_app(inner, env, ctx, fn_text, cur)
 
                 def cont(v, r):
                     env2 = dict(env)
                     bind_pat(pat[1][1], v, env2)
-                    return dec_seq(rest, tail, env2, ctx, fn_text, {"rust": pat[1][0][1], "lean": r})
+                    return dec_seq(rest, tail, env2, ctx, fn_text, {"rust": pat[1][0][1], "lean": r}, tailfn)
                 return app(cur["lean"], cont)
             raise Outside("`let .. = ..?` outside the fragment")
         if pat[0] == "pbind":
@@ -741,17 +866,17 @@ def dec_seq(stmts, tail, env, ctx, fn_text, cur):
                 env2[pat[1]] = V("bytes", f"utf8Lossy {par(b.term)}")
             else:
                 env2[pat[1]] = ev(e, env, ctx)
-            return dec_seq(rest, tail, env2, ctx, fn_text, cur)
+            return dec_seq(rest, tail, env2, ctx, fn_text, cur, tailfn)
         raise Outside("let statement outside the parser fragment")
     if s[0] == "expr" and s[1][0] == "if" and s[1][3] is None:
         c = ev(s[1][1], env, ctx)
         blk = s[1][2]
         if c.kind == "bool" and len(blk[1]) == 1 and blk[2] is None and blk[1][0][0] == "expr" and blk[1][0][1][0] == "ret":
             err = nom_err(blk[1][0][1][1])
-            return f"if {c.term} then {err} else\n    {dec_seq(rest, tail, env, ctx, fn_text, cur)}"
+            return f"if {c.term} then {err} else\n    {dec_seq(rest, tail, env, ctx, fn_text, cur, tailfn)}"
         if c.kind == "bool" and not blk[1] and blk[2] is not None and blk[2][0] == "ret":
             err = nom_err(blk[2][1])
-            return f"if {c.term} then {err} else\n    {dec_seq(rest, tail, env, ctx, fn_text, cur)}"
+            return f"if {c.term} then {err} else\n    {dec_seq(rest, tail, env, ctx, fn_text, cur, tailfn)}"
         raise Outside("`if` statement in a parser outside the fragment")
     raise Outside(f"statement `{s[0]}` in a parser outside the fragment")
 
@@ -814,9 +939,9 @@ SPECS = [
     F("stream_data_blocked", "stream_data_blocked.rs", "StreamDataBlockedFrame", [("stream_id", SID, "sid", "sid"), ("maximum_stream_data", VI, "varint", "n")],
       lambda s: f"Frame.streamCtl (.streamDataBlocked {par(s['sid'])} {par(s['n'])})", ".streamDataBlocked", "be_stream_data_blocked_frame"),
     F("max_streams", "max_streams.rs", "MaxStreamsFrame", [], lambda s: f"Frame.streamCtl (.maxStreams uni {par(s['n'])})", ".maxStreams uni", "max_streams_frame_with_dir",
-      enum="MaxStreamsFrame", variants={"Bi": "false", "Uni": "true"}, flag="uni", payload=("varint", "n"), outer={"dir": None}),
+      enum="MaxStreamsFrame", variants={"Bi": "false", "Uni": "true"}, flag="uni", payload=("varint", "n"), outer=[("dir", V("dir", "uni"), "(uni : Bool)")]),
     F("streams_blocked", "streams_blocked.rs", "StreamsBlockedFrame", [], lambda s: f"Frame.streamCtl (.streamsBlocked uni {par(s['n'])})", ".streamsBlocked uni", "streams_blocked_frame_with_dir",
-      enum="StreamsBlockedFrame", variants={"Bi": "false", "Uni": "true"}, flag="uni", payload=("varint", "n"), outer={"dir": None}),
+      enum="StreamsBlockedFrame", variants={"Bi": "false", "Uni": "true"}, flag="uni", payload=("varint", "n"), outer=[("dir", V("dir", "uni"), "(uni : Bool)")]),
     F("new_connection_id", "new_connection_id.rs", "NewConnectionIdFrame",
       [("sequence", VI, "varint", "seq"), ("retire_prior_to", VI, "varint", "rpt"), ("id", "ConnectionId", "cid", "cid"), ("reset_token", "ResetToken", "token", "token")],
       lambda s: f"Frame.newConnectionId {par(s['seq'])} {par(s['rpt'])} {par(s['cid'])} {par(s['token'])}", ".newConnectionId", "be_new_connection_id_frame"),
@@ -830,29 +955,28 @@ SPECS = [
       lambda s: f"Frame.punchDone {par(s['a'])} {par(s['b'])} {par(s['c'])}", ".punchDone", "be_punch_done_frame"),
     F("add_address", "add_address.rs", "AddAddressFrame", [("address", "SocketAddr", "addr", "addr"), ("seq_num", VI, "varint", "seq"), ("tire", VI, "varint", "tire"), ("nat_type", "NatType", "nattype", "nat")],
       lambda s: f"Frame.addAddress {par(s['seq'])} {par(s['addr'])} {par(s['tire'])} {par(s['nat'])}", ".addAddress addr.v6", "be_add_address_frame",
-      outer={"family": None}, order=["seq", "addr", "tire", "nat"]),
+      outer=[("family", V("family", "v6"), "(v6 : Bool)")], order=["seq", "addr", "tire", "nat"]),
     F("punch_me_now", "punch_me_now.rs", "PunchMeNowFrame", [("local_seq", VI, "varint", "l"), ("remote_seq", VI, "varint", "r"), ("address", "SocketAddr", "addr", "addr"), ("tire", VI, "varint", "tire"), ("nat_type", "NatType", "nattype", "nat")],
-      lambda s: f"Frame.punchMeNow {par(s['l'])} {par(s['r'])} {par(s['addr'])} {par(s['tire'])} {par(s['nat'])}", ".punchMeNow addr.v6", "be_punch_me_now_frame", outer={"family": None}),
-    F("crypto", "crypto.rs", "CryptoFrame", [("offset", VI, "varint", "off"), ("length", VI, "varint", "len")], None, ".crypto", None, put="put_data_frame", data=True),
-    F("datagram", "datagram.rs", "DatagramFrame", [("encode_len", "bool", "lenbit", "withLen"), ("len", VI, "varint", "len")], None, ".datagram withLen", None, put="put_data_frame", data=True),
+      lambda s: f"Frame.punchMeNow {par(s['l'])} {par(s['r'])} {par(s['addr'])} {par(s['tire'])} {par(s['nat'])}", ".punchMeNow addr.v6", "be_punch_me_now_frame", outer=[("family", V("family", "v6"), "(v6 : Bool)")]),
+    F("crypto", "crypto.rs", "CryptoFrame", [("offset", VI, "varint", "off"), ("length", VI, "varint", "len")], lambda s: f"({s['off']}, {s['len']})", ".crypto", "be_crypto_frame", put="put_data_frame", data=True, dec_ty="Nat × Nat"),
+    F("datagram", "datagram.rs", "DatagramFrame", [("encode_len", "bool", "lenbit", "withLen"), ("len", VI, "varint", "len")], lambda s: f"({s['withLen']}, {s['len']})", ".datagram withLen", "datagram_frame_with_flag", put="put_data_frame", data=True, dec_ty="Bool × Nat",
+      outer=[("flag", V("nat", "(if withLen then 1 else 0)"), "(withLen : Bool)")]),
     F("stream", "stream.rs", "StreamFrame", [("id", SID, "sid", "sid"), ("offset", VI, "varint", "off"), ("length", "usize", "nat", "len"), ("len_bit", "Len", "lenbit", "lenBit"), ("fin_bit", "Fin", "lenbit", "fin")],
-      None, ".stream (off != 0) lenBit fin", None, put="put_data_frame", data=True),
+      lambda s: f"({s['sid']}, {s['off']}, {s['len']}, {s['lenBit']}, {s['fin']})", ".stream (off != 0) lenBit fin", "stream_frame_with_flag", put="put_data_frame", data=True,
+      dec_ty="Nat × Nat × Nat × Bool × Bool",
+      outer=[("offset", V("lenbit", "offBit"), "(offBit : Bool)"), ("len", V("lenbit", "lenBit"), "(lenBit : Bool)"), ("fin", V("lenbit", "fin"), "(fin : Bool)")]),
     F("ack", "ack.rs", "AckFrame", [("largest", VI, "varint", "largest"), ("delay", VI, "varint", "delay"), ("first_range", VI, "varint", "first"), ("ranges", "Vec<(VarInt, VarInt)>", "ranges", "ranges"), ("ecn", "Option<EcnCounts>", "optecn", "ecn")],
-      None, ".ack ecn.isSome", None),
+      lambda s: f"Frame.ack {par(s['largest'])} {par(s['delay'])} {par(s['first'])} {par(s['ranges'])} {par(s['ecn'])}", ".ack ecn.isSome", "ack_frame_with_ecn",
+      outer=[("ecn", V("lenbit", "ecn"), "(ecn : Bool)")]),
     F("close_app", "connection_close.rs", "AppCloseFrame", [("error_code", VI, "varint", "code"), ("reason", "Cow<'static, str>", "bytes", "reason")],
       lambda s: f"Frame.closeApp {par(s['code'])} {par(s['reason'])}", ".connectionClose true", "be_app_close_frame",
       enum="ConnectionCloseFrame", variants={"App": None, "Quic": None}, only="App"),
     F("close_quic", "connection_close.rs", "QuicCloseFrame", [("error_kind", "ErrorKind", "ekind", "kind"), ("frame_type", "ErrorFrameType", "efty", "fty"), ("reason", "Cow<'static, str>", "bytes", "reason")],
-      lambda s: f"Frame.closeQuic {par(s['kind'])} {par(s['fty'])} {par(s['reason'])}", ".connectionClose false", None,
+      lambda s: f"Frame.closeQuic {par(s['kind'])} {par(s['fty'])} {par(s['reason'])}", ".connectionClose false", "be_quic_close_frame",
       enum="ConnectionCloseFrame", variants={"App": None, "Quic": None}, only="Quic"),
 ]
 # what is deliberately NOT a target (stays tied by the differential run only), with the reason
 NOT_TARGETS = {
-    "dec_ack": "`ack_frame_with_ecn` is a `while count > 0` loop with mutable remainder",
-    "dec_stream": "`stream_frame_with_flag` returns the header only; conditional tuple-valued `if` + the data split of `be_frame` (io.rs)",
-    "dec_crypto": "`be_crypto_frame` returns the header only; the data split is in `be_frame` (io.rs)",
-    "dec_datagram": "`datagram_frame_with_flag`: `VarInt::try_from(input.remaining()).expect(..)` + data split in `be_frame`",
-    "dec_close_quic": "`be_quic_close_frame`: parser error remapping `be_varint(..).map_err(..)` and a `match FrameType::try_from` value",
 }
 LEAN_TY = {"varint": "Nat", "sid": "Nat", "bytes": "Bytes", "cid": "Bytes", "token": "Bytes", "addr": "SockAddr", "nattype": "Nat",
            "lenbit": "Bool", "nat": "Nat", "ranges": "List (Nat × Nat)", "optecn": "Option (Nat × Nat × Nat)", "ekind": "EKind", "efty": "ErrFty"}
@@ -982,28 +1106,27 @@ def generate(g):
             env = {}
             dsig = ""
             if "outer" in sp:
-                pname = list(sp["outer"])[0]
-                if m.group(1).split(":")[0].strip() != pname:
-                    raise Outside(f"`{pn}` parameter is not `{pname}`")
+                pnames = [x.split(":")[0].strip() for x in m.group(1).split(",") if x.strip()]
+                if pnames != [o[0] for o in sp["outer"]]:
+                    raise Outside(f"`{pn}` parameters are {pnames}, the binding expects {[o[0] for o in sp['outer']]}")
                 if b[1] or b[2] is None or b[2][0] != "closure" or len(b[2][1]) != 1 or b[2][1][0][0] != "pbind":
                     raise Outside(f"`{pn}` is not a `move |input| ..` closure")
                 inp = b[2][1][0][1]
                 inner = b[2][2]
                 if inner[0] != "block":
                     inner = ("block", [], inner)
-                if pname == "family":
-                    env["family"] = V("family", "v6")
-                    dsig = "(v6 : Bool) "
-                else:
-                    env["dir"] = V("dir", "uni")
-                    dsig = "(uni : Bool) "
+                for pname, val, binder in sp["outer"]:
+                    env[pname] = val
+                    dsig += binder + " "
                 b = inner
             else:
                 inp = m.group(1).split(":")[0].strip()
             if not sp["fields"] and "enum" not in sp:
                 env[sp["struct"]] = V("path_unit")
+            ctx.aux = []
             term = dec_seq(b[1], b[2], env, ctx, body, {"rust": inp, "lean": "bs"})
-            L += [f"/-- {rel} `{pn}` -/", f"def dec_{name} {dsig}: P Frame := fun bs =>", f"  {term}", ""]
+            L += ctx.aux
+            L += [f"/-- {rel} `{pn}` -/", f"def dec_{name} {dsig}: P {par(sp.get('dec_ty', 'Frame'))} := fun bs =>", f"  {term}", ""]
             items.append(f"dec_{name}")
             cov["dec"] = "generated"
         except Outside as ex:
